@@ -80,3 +80,36 @@ Example C07_example :
   valid_args 1000 p (ChgBnds [(1%Z, "U"%char, 3)]) = false /\ valid_args 1000 p (ChgBnds [(0%Z, "U"%char, 3)]) = true /\
   valid_args 1000 p (NewRow 1 "X" None) = false /\ valid_args 1000 p (DelRows [0%Z; 0%Z]) = false.
 Proof. vm_compute. repeat split; reflexivity. Qed.
+
+(* ===== generated guard lemmas (DESIGN 3.1): the range checks of the CURRENT source =====
+   tools/gen_guards.py (run by tools/gen_all.py and by checks/C07.py before compiling) extracts from the preprocessed
+   qsopt_ex/lib.c and qsopt_ex/qsopt.c, for every function with an index parameter, the first range check of that parameter as
+   a tree over (index, nrows, nstruct, ncols) -> coq/Gen/Guards.v.  Store/GuardsOk.v proves over that list: every guard rejects
+   exactly the indices outside the range of the argument's role (row: 0 <= i < nrows; structural column: 0 <= j < nstruct;
+   internal column: 0 <= j < ncols = nstruct + nrows); every public QS* function with an index argument reaches one
+   (delegations, unguarded = []); nothing was left untranslated.  A weakened guard in the source breaks C07_guards_exact at the
+   next run. *)
+From QSX Require Import Store.GuardDefs Gen.Guards Store.GuardsOk.
+
+Theorem C07_guards_exact : Forall guard_exact guards.
+Proof. exact guards_exact. Qed.
+Print Assumptions C07_guards_exact.
+
+Theorem C07_guards_complete : unguarded = [] /\ untranslated = [].
+Proof. exact guards_complete. Qed.
+Print Assumptions C07_guards_complete.
+
+Theorem C07_guards_classified : forallb (fun g => match g_role g with RUnknown => false | _ => true end) guards = true.
+Proof. exact guards_classified. Qed.
+Print Assumptions C07_guards_classified.
+
+Theorem C07_guards_accept_iff_valid : Forall (fun g => forall i nrows nstruct, (0 <= nrows)%Z -> (0 <= nstruct)%Z ->
+  guard_accepts g i nrows nstruct = role_accepts (g_role g) i nrows nstruct) guards.
+Proof. exact guards_accept_iff_valid. Qed.
+Print Assumptions C07_guards_accept_iff_valid.
+
+(* the list is not empty and has the expected shape: e.g. the guard of ILLlib_chgbnd is `indx < 0 || indx >= nstruct` *)
+Example C07_guards_example :
+  (20 <= List.length guards)%nat /\
+  existsb (fun g => String.eqb (g_fn g) "ILLlib_chgbnd" && negb (guard_accepts g 3 2 3) && guard_accepts g 2 2 3) guards = true.
+Proof. vm_compute. split; [repeat constructor|reflexivity]. Qed.
